@@ -117,6 +117,26 @@ void Exec::op_stmt(const Json& o){
       return;
     }
   }
+  // element-wise operations have a definition the model can evaluate itself (one IEEE operation per component, no contraction in any build):
+  // the unfused reference must agree with it bit for bit
+  if(!expect_throw && is_elementwise(s.expr)){
+    for(unsigned i=0;i<rsize;i++){
+      double want;
+      switch(s.expr){
+        case E_ADD: want=av[i]+bv[i]; break;
+        case E_SUB: want=av[i]-bv[i]; break;
+        case E_NEG: want=-av[i]; break;
+        case E_SMUL: case E_MULS: want=s.x*av[i]; break;
+        case E_EPROD: want=av[i]*bv[i]; break;
+        default: want=(s.fn==0)?AMinus2B()(av[i],bv[i]):MaxAbs()(av[i],bv[i]); break;
+      }
+      if(!same_value(ref[i],want)){
+        if(ebuf) verif::user_buffer_free(ebuf);
+        char b[200]; snprintf(b,sizeof b,"component %u of %s evaluated into a fresh temporary is %.17g, the operation's definition gives %.17g",i,expr_names[s.expr],ref[i],want);
+        violation(c,"C09","model:value-mismatch",std::string("stmt:")+expr_names[s.expr]+":definition",b); return;
+      }
+    }
+  }
   begin(std::string("stmt:")+expr_names[s.expr],operand_mismatch?"C14":"C15");
   long blocks_a=oa.block,blocks_b=ob.block;
   int rc=stmt_table[s.expr](c,s);
